@@ -118,7 +118,7 @@ fn de_payload<'de, D: Deserializer<'de>>(d: D) -> Result<u32, D::Error> {
 macro_rules! plain {
     ($name:ident, $key:literal, $inner:ty, $mk:expr, $get:expr, $touch:expr $(, $attr:meta)?) => {
         $(#[$attr])?
-        #[derive(Clone, Copy, Debug, PartialEq)]
+        #[derive(Clone, Copy, Debug, PartialEq, Default)]
         pub struct $name(pub $inner);
         impl LabVal for $name {
             const KEY: &'static str = $key;
@@ -239,7 +239,7 @@ tracked!(PtrT, "PtrT", *const u8, |_p: u32| std::ptr::null::<u8>());
 tracked!(GuardT, "GuardT", PhantomData<std::sync::MutexGuard<'static, ()>>, |_p: u32| PhantomData);
 
 /// Zero-size type with a destructor: no identity (serial 0), destructions are counted.
-#[derive(Debug)]
+#[derive(Debug, Default)]
 pub struct ZstDrop;
 impl LabVal for ZstDrop {
     const KEY: &'static str = "ZstDrop";
